@@ -12,6 +12,7 @@ evaluation of `loadRef ∘ render`), the universally quantified statement is the
 which re-evaluates `loadRef (render s) = ok s.trees` on every generated stream.
 -/
 import SuccinctlyVerif.Proof.YamlRoundTrip
+import SuccinctlyVerif.Proof.YamlFamilies
 namespace SV.Props.C14
 open SV SV.Yaml
 
@@ -64,5 +65,29 @@ example : exL1.l1 = true := by decide
 example : admissible (l1Stream exL1 0) = true := by decide +kernel
 example : (l1Stream exL1 0).chars = "{\"k\\\"\\n\": [ -12, ~, TRUE, \"\\xe9\\x09\\U0001f600\\\\\"], \"\":   {}}\n".toList := by
   decide +kernel
+
+/-! ## Layers not yet proved for all streams
+
+Each theorem below is the layer's statement restricted to an explicit finite family of streams
+(`Proof/YamlFamilies.lean`) that exhibits the layer's constructs; `loadsBack s` says
+`admissible s ∧ loadChars s.chars = ok s.trees` and is evaluated by the Lean kernel.  MISSING in every
+one of them: the quantification over all admissible streams of the layer (`render_load_full_statement`
+restricted to the layer); that quantifier is covered only by the correspondence check, where the
+driver evaluates `loadRef (render s) = ok s.trees` for every generated stream. -/
+
+/-- Layer 2 (block collections with plain / quoted scalars) — finite family only. -/
+theorem render_load_partial_block : familyBlock.all loadsBack = true := by decide +kernel
+
+/-- Layer 3 (literal and folded block scalars, chomping, indentation indicator) — finite family only. -/
+theorem render_load_partial_block_scalars : familyBlockScalar.all loadsBack = true := by decide +kernel
+
+/-- Layer 4 (comments and blank lines) — finite family only. -/
+theorem render_load_partial_comments : familyComments.all loadsBack = true := by decide +kernel
+
+/-- Layer 6 (anchors and aliases) — finite family only. -/
+theorem render_load_partial_anchors : familyAnchors.all loadsBack = true := by decide +kernel
+
+/-- Layer 7 (several documents, `---` / `...`) — finite family only (the second stream uses CRLF). -/
+theorem render_load_partial_multi_document : familyMultiDoc.all loadsBack = true := by decide +kernel
 
 end SV.Props.C14
